@@ -6,6 +6,7 @@ import VotelibProofs.Lemmas.OverhangCont
 import VotelibProofs.Props.C09
 import Mathlib.Data.Rat.Floor
 import Mathlib.Algebra.BigOperators.Ring.List
+import Mathlib.Algebra.Order.Archimedean.Basic
 namespace VL.OH
 open VL
 
@@ -18,46 +19,43 @@ def hareAdd (q : Rat) (prev : Seats) (p : Cand × Rat) : Option (Cand × Nat) :=
     if 0 < add then some (p.1, add.toNat) else none
   else none
 
+/-- one step of the pass on a successful accumulator -/
+theorem hareStep_ok (q : Rat) (n : Nat) (prev : Seats) (sel : Seats) (p : Cand × Rat) :
+    hareStep q n prev (.ok sel) p =
+      if q < p.2 ∨ p.2 = q then
+        if q = 0 then .error zeroDiv else
+        if 0 < Py.pyInt (p.2 / q) - ((natLookup prev p.1 0 : Nat) : Int) then
+          if (n : Int) < Py.pyInt (p.2 / q) then .error unmodelled
+          else .ok (sel ++ [(p.1, (Py.pyInt (p.2 / q) - ((natLookup prev p.1 0 : Nat) : Int)).toNat)])
+        else .ok sel
+      else .ok sel := rfl
+
+theorem hareStep_error (q : Rat) (n : Nat) (prev : Seats) (e : Err) (l : Votes) :
+    l.foldl (hareStep q n prev) (.error e) = .error e := by
+  induction l with
+  | nil => rfl
+  | cons x xs ih => rw [List.foldl_cons]; exact ih
+
 theorem hareQuota_foldl (q : Rat) (n : Nat) (prev : Seats) (l : Votes) (acc qe : Seats)
-    (h : l.foldl (fun (acc : Except Err Seats) (p : Cand × Rat) => do
-        let sel ← acc
-        if q < p.2 ∨ p.2 = q then
-          if q = 0 then .error zeroDiv else
-          let whole : Int := Py.pyInt (p.2 / q)
-          let add : Int := whole - (natLookup prev p.1 0 : Nat)
-          if 0 < add then
-            if (n : Int) < whole then .error unmodelled
-            else pure (sel ++ [(p.1, add.toNat)])
-          else pure sel
-        else pure sel) (.ok acc) = .ok qe) :
+    (h : l.foldl (hareStep q n prev) (.ok acc) = .ok qe) :
     qe = acc ++ l.filterMap (hareAdd q prev) ∧ (∀ p ∈ l, (q < p.2 ∨ p.2 = q) → q ≠ 0) := by
   induction l generalizing acc with
   | nil =>
     simp only [List.foldl_nil, Except.ok.injEq] at h
     simp [h]
   | cons x xs ih =>
-    rw [List.foldl_cons] at h
-    simp only [bind, Except.bind] at h
+    rw [List.foldl_cons, hareStep_ok] at h
     by_cases hful : q < x.2 ∨ x.2 = q
     · rw [if_pos hful] at h
       by_cases hq : q = 0
-      · rw [if_pos hq] at h
-        -- the accumulator is an error from here on
-        exfalso
-        clear ih hful
-        induction xs with
-        | nil => simp at h
-        | cons y ys ih' => rw [List.foldl_cons] at h; exact ih' h
+      · rw [if_pos hq, hareStep_error] at h
+        simp at h
       · rw [if_neg hq] at h
         by_cases hadd : 0 < Py.pyInt (x.2 / q) - ((natLookup prev x.1 0 : Nat) : Int)
         · rw [if_pos hadd] at h
           by_cases hov : (n : Int) < Py.pyInt (x.2 / q)
-          · rw [if_pos hov] at h
-            exfalso
-            clear ih hful
-            induction xs with
-            | nil => simp at h
-            | cons y ys ih' => rw [List.foldl_cons] at h; exact ih' h
+          · rw [if_pos hov, hareStep_error] at h
+            simp at h
           · rw [if_neg hov] at h
             obtain ⟨h1, h2⟩ := ih _ h
             refine ⟨?_, ?_⟩
@@ -90,6 +88,31 @@ theorem hareQuota_foldl (q : Rat) (n : Nat) (prev : Seats) (l : Votes) (acc qe :
         rcases List.mem_cons.mp hp with rfl | hp'
         · exact absurd hf hful
         · exact h2 p hp' hf
+
+/-- the whole-quota pass succeeds when the quota is non-zero and no party overshoots the house -/
+theorem hareQuota_foldl_ok (q : Rat) (hq : q ≠ 0) (n : Nat) (prev : Seats) (l : Votes) (acc : Seats)
+    (hw : ∀ p ∈ l, ¬ (n : Int) < Py.pyInt (p.2 / q)) :
+    l.foldl (hareStep q n prev) (.ok acc) = .ok (acc ++ l.filterMap (hareAdd q prev)) := by
+  induction l generalizing acc with
+  | nil => simp
+  | cons x xs ih =>
+    rw [List.foldl_cons, hareStep_ok]
+    have hwx := hw x List.mem_cons_self
+    have hws : ∀ p ∈ xs, ¬ (n : Int) < Py.pyInt (p.2 / q) := fun p hp => hw p (List.mem_cons_of_mem _ hp)
+    by_cases hful : q < x.2 ∨ x.2 = q
+    · rw [if_pos hful, if_neg hq]
+      by_cases hadd : 0 < Py.pyInt (x.2 / q) - ((natLookup prev x.1 0 : Nat) : Int)
+      · rw [if_pos hadd, if_neg hwx, ih _ hws, List.filterMap_cons]
+        have : hareAdd q prev x = some (x.1, (Py.pyInt (x.2 / q) - ((natLookup prev x.1 0 : Nat) : Int)).toNat) := by
+          unfold hareAdd; rw [if_pos hful]; simp only; rw [if_pos hadd]
+        rw [this]; simp
+      · rw [if_neg hadd, ih _ hws, List.filterMap_cons]
+        have : hareAdd q prev x = none := by
+          unfold hareAdd; rw [if_pos hful]; simp only; rw [if_neg hadd]
+        rw [this]
+    · rw [if_neg hful, ih _ hws, List.filterMap_cons]
+      have : hareAdd q prev x = none := by unfold hareAdd; rw [if_neg hful]
+      rw [this]
 
 /-! ### arithmetic of the Hare quota -/
 
@@ -253,7 +276,6 @@ theorem lrHare_fills (votes : Votes) (hne : votes ≠ []) (hv : ∀ p ∈ votes,
     by_cases hn0 : n = 0
     · rw [if_pos hn0] at hqe; simp at hqe
     · rw [if_neg hn0] at hqe
-      simp only at hqe
       obtain ⟨hqeq, hqne⟩ := hareQuota_foldl (sumVals votes / (n : Rat)) n prev votes [] qe hqe
       rw [List.nil_append] at hqeq
       by_cases hover : n < sumSeats qe + sumSeats prev
@@ -411,8 +433,7 @@ theorem lrHare_nodup (votes : Votes) (hn : (keys votes).Nodup) (n : Nat) (prev c
         unfold hareQuotaSeats at hqe
         split at hqe
         · simp at hqe
-        · simp only at hqe
-          obtain ⟨hqeq, _⟩ := hareQuota_foldl _ n prev votes [] qe hqe
+        · obtain ⟨hqeq, _⟩ := hareQuota_foldl _ n prev votes [] qe hqe
           rw [List.nil_append] at hqeq
           have hsub := hareAdd_keys_sublist (sumVals votes / (n : Rat)) prev votes
           rw [← hqeq] at hsub
@@ -470,5 +491,206 @@ theorem distGet_addDist_nodup (d1 d2 : Dist) (h2 : (d2.map (·.1)).Nodup) (k : K
       omega
     · rw [if_neg hk, if_neg hk]
 
+
+/-! ### the model answers for every house size; whole quotas grow without bound -/
+
+theorem hareContrib_le_floor (q : Rat) (hq : 0 < q) (p : Cand × Rat) (hp : 0 ≤ p.2) :
+    (hareContrib q [] p : Int) ≤ ⌊p.2 / q⌋ := by
+  have hdiv : 0 ≤ p.2 / q := div_nonneg hp (le_of_lt hq)
+  have hfl : 0 ≤ ⌊p.2 / q⌋ := Int.floor_nonneg.mpr hdiv
+  unfold hareContrib hareAdd
+  by_cases hful : q < p.2 ∨ p.2 = q
+  · rw [if_pos hful]
+    simp only
+    rw [pyInt_nonneg_eq_floor _ hdiv]
+    have h0 : ((natLookup ([] : Seats) p.1 0 : Nat) : Int) = 0 := rfl
+    by_cases hadd : 0 < ⌊p.2 / q⌋ - ((natLookup ([] : Seats) p.1 0 : Nat) : Int)
+    · rw [if_pos hadd]; simp only; omega
+    · rw [if_neg hadd]; simp only; omega
+  · rw [if_neg hful]; simp only; omega
+
+theorem natLookup_filterMap_hareAdd (q : Rat) (prev : Seats) (l : Votes) (hn : (l.map (·.1)).Nodup)
+    (p : Cand × Rat) (hp : p ∈ l) :
+    natLookup (l.filterMap (hareAdd q prev)) p.1 0 = hareContrib q prev p := by
+  induction l with
+  | nil => simp at hp
+  | cons x xs ih =>
+    rw [List.map_cons, List.nodup_cons] at hn
+    rw [List.filterMap_cons]
+    have hkey : ∀ a, hareAdd q prev x = some a → a.1 = x.1 := by
+      intro a hx
+      unfold hareAdd at hx
+      split at hx
+      · simp only at hx
+        split at hx
+        · simp only [Option.some.injEq] at hx; rw [← hx]
+        · simp at hx
+      · simp at hx
+    rcases List.mem_cons.mp hp with rfl | hp'
+    · unfold hareContrib
+      cases hx : hareAdd q prev p with
+      | none =>
+        simp only
+        apply natLookup_zero_of_not_mem
+        intro hm
+        have := (hareAdd_keys_sublist q prev xs).subset hm
+        exact hn.1 this
+      | some a =>
+        simp only
+        rw [natLookup_cons, if_pos (hkey a hx)]
+    · have hne : x.1 ≠ p.1 := fun e => hn.1 (e ▸ List.mem_map.mpr ⟨p, hp', rfl⟩)
+      cases hx : hareAdd q prev x with
+      | none => simp only; exact ih hn.2 hp'
+      | some a =>
+        simp only
+        rw [natLookup_cons, if_neg (by rw [hkey a hx]; exact hne)]
+        exact ih hn.2 hp'
+
+theorem distGet_incSlot_ge (acc : Dist) (s : Slot) (k : Key) : distGet acc k ≤ distGet (incSlot acc s) k := by
+  cases s with
+  | cand c =>
+    simp only [incSlot]
+    rw [distGet_setK]
+    split
+    · rename_i h; rw [← h]; omega
+    · exact Nat.le_refl _
+  | tie cs =>
+    simp only [incSlot]
+    rw [distGet_setK]
+    split
+    · rename_i h; rw [← h]; omega
+    · exact Nat.le_refl _
+
+theorem distGet_foldl_incSlot_ge (best : List Slot) (qd : Dist) (k : Key) :
+    distGet qd k ≤ distGet (best.foldl incSlot qd) k := by
+  induction best generalizing qd with
+  | nil => exact Nat.le_refl _
+  | cons x xs ih => rw [List.foldl_cons]; exact Nat.le_trans (distGet_incSlot_ge _ _ _) (ih _)
+
+theorem cast_sum_map_nat (l : Votes) (f : Cand × Rat → Nat) :
+    (((l.map f).sum : Nat) : Int) = (l.map (fun p => (f p : Int))).sum := by
+  induction l with
+  | nil => simp
+  | cons x xs ih => simp only [List.map_cons, List.sum_cons]; push_cast; rw [← ih]
+
+theorem floor_sum_le (q : Rat) (l : Votes) :
+    (((l.map (fun p => ⌊p.2 / q⌋)).sum : Int) : Rat) ≤ (l.map (fun p => p.2 / q)).sum := by
+  induction l with
+  | nil => simp
+  | cons x xs ih =>
+    simp only [List.map_cons, List.sum_cons]
+    push_cast
+    have := Int.floor_le (x.2 / q)
+    linarith
+
+/-- **The largest-remainder model answers for every house size `h ≥ 1`** (no previous gains, positive total), and
+    gives every party at least its whole Hare quotas. -/
+theorem lrHare_answers (votes : Votes) (hv : ∀ p ∈ votes, 0 ≤ p.2) (hn : (keys votes).Nodup)
+    (hT : 0 < sumVals votes) (h : Nat) (hh : 0 < h) :
+    ∃ r, lrHareEval votes h [] [] = .ok r ∧
+      ∀ p ∈ votes, ⌊p.2 / (sumVals votes / (h : Rat))⌋ ≤ (distGet r (.cand p.1) : Int) := by
+  have hhpos : (0 : Rat) < h := by exact_mod_cast hh
+  set q : Rat := sumVals votes / (h : Rat) with hqdef
+  have hq : 0 < q := div_pos hT hhpos
+  have hle : ∀ p ∈ votes, p.2 ≤ sumVals votes := by
+    intro p hp
+    rw [sumVals_eq]
+    exact List.single_le_sum (fun x hx => by
+      obtain ⟨y, hy, rfl⟩ := List.mem_map.mp hx; exact hv y hy) _ (List.mem_map.mpr ⟨p, hp, rfl⟩)
+  have hfloor_le : ∀ p ∈ votes, ⌊p.2 / q⌋ ≤ (h : Int) := by
+    intro p hp
+    have : p.2 / q ≤ h := by
+      rw [div_le_iff₀ hq, hqdef]
+      have := hle p hp
+      have e : (h : Rat) * (sumVals votes / h) = sumVals votes := by field_simp
+      rw [e]; exact this
+    have h2 : (⌊p.2 / q⌋ : Rat) ≤ h := le_trans (Int.floor_le _) this
+    exact_mod_cast h2
+  have hw : ∀ p ∈ votes, ¬ (h : Int) < Py.pyInt (p.2 / q) := by
+    intro p hp
+    rw [pyInt_nonneg_eq_floor _ (div_nonneg (hv p hp) (le_of_lt hq))]
+    have := hfloor_le p hp
+    omega
+  have hqe : hareQuotaSeats votes h [] = .ok (votes.filterMap (hareAdd q [])) := by
+    unfold hareQuotaSeats
+    rw [if_neg (by omega)]
+    have := hareQuota_foldl_ok q (ne_of_gt hq) h [] votes [] hw
+    rw [List.nil_append] at this
+    exact this
+  -- the quota seats fit into the house
+  have hsum : sumSeats (votes.filterMap (hareAdd q [])) ≤ h := by
+    rw [sumSeats_filterMap_hareAdd]
+    have h1 : (((votes.map (hareContrib q [])).sum : Nat) : Int) ≤ (votes.map (fun p => ⌊p.2 / q⌋)).sum := by
+      have := cast_sum_map_nat votes (hareContrib q [])
+      rw [this]
+      exact List.sum_le_sum (fun p hp => hareContrib_le_floor q hq p (hv p hp))
+    have h2 : (((votes.map (fun p => ⌊p.2 / q⌋)).sum : Int) : Rat) ≤ (votes.map (fun p => p.2 / q)).sum :=
+      floor_sum_le q votes
+    have h3 : ((votes.map (fun p => p.2 / q)).sum : Rat) = h := by
+      have : (votes.map (fun p => p.2 / q)).sum = (votes.map (·.2)).sum / q := by
+        simp only [div_eq_mul_inv]
+        exact List.sum_map_mul_right (l := votes) (f := fun p => p.2) (r := q⁻¹)
+      rw [this, ← sumVals_eq, hqdef]
+      field_simp
+    have h4 : (((votes.map (fun p => ⌊p.2 / q⌋)).sum : Int) : Rat) ≤ h := by rw [← h3]; exact h2
+    have h5 : (votes.map (fun p => ⌊p.2 / q⌋)).sum ≤ (h : Int) := by exact_mod_cast h4
+    omega
+  unfold lrHareEval
+  simp only [ne_eq, not_true_eq_false, ↓reduceIte, bind, Except.bind, hqe]
+  have hs0 : sumSeats ([] : Seats) = 0 := rfl
+  rw [if_neg (by rw [hs0]; omega)]
+  refine ⟨_, rfl, ?_⟩
+  intro p hp
+  refine le_trans ?_ (Int.ofNat_le.mpr (distGet_foldl_incSlot_ge _ _ _))
+  rw [distGet_seatsToDist, natLookup_filterMap_hareAdd q [] votes hn p hp]
+  have := hareContrib_ge q hq [] p (hv p hp)
+  have h0 : ((natLookup ([] : Seats) p.1 0 : Nat) : Int) = 0 := rfl
+  omega
+
+theorem entry_of_getD_pos (votes : Votes) (c : Cand) (h : 0 < getD votes c 0) :
+    ∃ p ∈ votes, p.1 = c ∧ p.2 = getD votes c 0 := by
+  unfold getD lookup at h ⊢
+  cases hf : votes.find? (fun p => p.1 = c) with
+  | none => rw [hf] at h; simp at h
+  | some p =>
+    have hm := List.mem_of_find?_eq_some hf
+    have hk := List.find?_some hf
+    simp only [decide_eq_true_eq] at hk
+    exact ⟨p, hm, hk, by simp⟩
+
+/-- every floor of a party with positive votes is eventually met by the largest-remainder model, and stays met -/
+theorem lr_meets_eventually (votes : Votes) (hv : ∀ p ∈ votes, 0 ≤ p.2) (hn : (keys votes).Nodup)
+    (hT : 0 < sumVals votes) (floors : Dist) (hfl : ∀ p ∈ floors, ∃ c, p.1 = .cand c ∧ 0 < getD votes c 0) :
+    ∃ H, ∀ h, H ≤ h → 0 < h → ∀ r, lrHareEval votes h [] [] = .ok r → MeetsFloors r floors := by
+  induction floors with
+  | nil => exact ⟨0, fun h _ _ r _ p hp => by simp at hp⟩
+  | cons x xs ih =>
+    obtain ⟨H1, hH1⟩ := ih (fun p hp => hfl p (List.mem_cons_of_mem _ hp))
+    obtain ⟨c, hxc, hcpos⟩ := hfl x List.mem_cons_self
+    obtain ⟨p, hpm, hpc, hpv⟩ := entry_of_getD_pos votes c hcpos
+    have hppos : 0 < p.2 := by rw [hpv]; exact hcpos
+    obtain ⟨k, hk⟩ := exists_nat_ge ((x.2 : Rat) * sumVals votes / p.2)
+    refine ⟨max H1 k, fun h hh hpos r hr q hq => ?_⟩
+    rcases List.mem_cons.mp hq with rfl | hq'
+    · obtain ⟨r', hr', hbound⟩ := lrHare_answers votes hv hn hT h hpos
+      rw [hr] at hr'
+      have hre : r = r' := Except.ok.inj hr'
+      subst hre
+      have hb := hbound p hpm
+      rw [hxc, ← hpc]
+      have hhpos : (0 : Rat) < h := by exact_mod_cast hpos
+      have hqpos : 0 < sumVals votes / (h : Rat) := div_pos hT hhpos
+      have hkh : (k : Rat) ≤ h := by exact_mod_cast le_trans (le_max_right H1 k) hh
+      have hfl2 : (q.2 : Int) ≤ ⌊p.2 / (sumVals votes / (h : Rat))⌋ := by
+        rw [Int.le_floor]
+        push_cast
+        rw [le_div_iff₀ hqpos]
+        have h1 : (q.2 : Rat) * sumVals votes / p.2 ≤ h := le_trans hk hkh
+        rw [div_le_iff₀ hppos] at h1
+        have e : (q.2 : Rat) * (sumVals votes / h) = (q.2 : Rat) * sumVals votes / h := by ring
+        rw [e, div_le_iff₀ hhpos]
+        linarith
+      omega
+    · exact hH1 h (le_trans (le_max_left _ _) hh) hpos r hr q hq'
 
 end VL.OH
